@@ -157,26 +157,26 @@ pub fn in_position(t: ast::Type, pos: u8) -> ast::Aidl {
 /// check_containers through the real type walker: nesting depth 2 (container in container), return-type position.
 #[kani::proof]
 #[kani::stub(alloc::fmt::format, stub_format)]
-#[kani::unwind(5)]
+#[kani::unwind(4)]
 fn c08_walk_depth2_return() { walk_body!(2, 3, 0) }
 
 #[kani::proof]
 #[kani::stub(alloc::fmt::format, stub_format)]
-#[kani::unwind(5)]
+#[kani::unwind(4)]
 fn c08_walk_depth2_arg() { walk_body!(2, 3, 1) }
 
 #[kani::proof]
 #[kani::stub(alloc::fmt::format, stub_format)]
-#[kani::unwind(5)]
+#[kani::unwind(4)]
 fn c08_walk_depth2_field() { walk_body!(2, 3, 3) }
 
 #[kani::proof]
 #[kani::stub(alloc::fmt::format, stub_format)]
-#[kani::unwind(5)]
+#[kani::unwind(4)]
 fn c08_walk_depth2_const() { walk_body!(2, 3, 2) }
 
 /// Thorough: depth 3 spine.
 #[kani::proof]
 #[kani::stub(alloc::fmt::format, stub_format)]
-#[kani::unwind(6)]
+#[kani::unwind(5)]
 fn c08_walk_depth3_return() { walk_body!(3, 4, 0) }
